@@ -10,8 +10,9 @@ def jobs(tier, seed):
               bound="server_sort_cb and the deadline comparator on three elements with ALL field values symbolic")]
     J += mjobs.health_jobs(tier)
     J += mjobs.requeue_jobs(tier)  # a finished probe releases its server
-    sq = [j for j in mjobs.sendquery_jobs(tier) if "_sib0" in j["name"]]
+    sq = mjobs.sendquery_jobs(tier)
     if tier == "quick":  # the other combinations run in C01/C10 and in the thorough tier here
-        sq = [j for j in sq if j["name"] in ("sendquery_srv2_vc0_ex0_sib0", "sendquery_srv2_vc1_ex0_sib0", "sendquery_srv1_vc0_ex1_sib0")]
+        sq = [j for j in sq if j["name"] in ("sendquery_srv2_vc0_ex0_sib0", "sendquery_srv2_vc1_ex0_sib0", "sendquery_srv1_vc0_ex1_sib0",
+                                             "sendquery_srv1_vc0_ex1_sib1", "sendquery_srv1_vc1_ex2_sib1")]
     J += sq
     return J
